@@ -888,6 +888,35 @@ VALUE_CASES = [('12', 12), (' 12 ', 12), ('-7', -7), ('1.5', 1.5), ('1,5', 1.5),
                ('12.0', 12.0), ('abc', 'error'), ('', 'error'), ('12abc', 'error'), ('1.2.3', 'error')]
 
 
+def search_metachars_eval(run: Run, rt):
+    """R4 by evaluation: a find text with regex metacharacters beside a wildcard must still be searched for as text"""
+    from ..finite import evaluator_for, const_av, Unknown, AbsRaise
+    cases = [('(*', 'a(b', None, 2), ('a.c*', 'abc a.cd', None, 5), ('[*', 'x[y', None, 2), ('+?', '1+1', None, 2), ('a|b*', 'b a|bc', None, 3)]
+    for cp in rt.copies():
+        fn = cp.members.get('_search')
+        if fn is None:
+            continue
+        wrong = []
+        for find, within, start, want in cases:
+            ev = evaluator_for(cp, max_depth=8)
+            try:
+                res = ev.call_method('_search', [const_av(find), const_av(within), const_av(start)])
+                got = res.val if res.val is not None and not isinstance(res.val, tuple) else repr(res)
+            except Unknown as u:
+                raise AnalysisError('C17.R4', f'_search[{cp.label}]({find!r}, {within!r}): the abstraction cannot follow the helper ({u})')
+            except AbsRaise as e:
+                got = f'raises {e.exc}'
+            if got != want:
+                wrong.append((find, within, got, want))
+        if wrong:
+            f_, w_, g_, x_ = wrong[0]
+            run.bad('C17.R4', '_search/wildcard path', 'metachars-unescaped',
+                    f'a find text with a wildcard and other regex metacharacters is not searched for as text: SEARCH({f_!r}, {w_!r}) gives {g_!r} '
+                    f'(Excel {x_!r}); {len(wrong)} of {len(cases)} such cases are wrong in the {cp.label} copy', loc=cp.loc(fn))
+        else:
+            run.ok('C17.R4', f'_search[{cp.label}]/escape', 'metacharacters beside wildcards are searched for as text', loc=cp.loc(fn))
+
+
 def value_eval(run: Run, rt):
     """VALUE on texts that are plainly a number or plainly not: the number the text denotes (blanks at the ends ignored, decimal
     comma or point), #VALUE! for a text that is no number"""
@@ -962,6 +991,25 @@ def run(run: Run):
     run.guard('C17.R1', _evaluated_then_structural, run, 'C17.R1', slices_eval, r1, rt)
     run.guard('C17.R2', r2, run, src, g, em, rt)
     run.guard('C17.R3', _evaluated_then_structural, run, 'C17.R3', search_eval, r3_r4, rt)
+    # R4 is decided by evaluation; what the structural reading said about R4 (if it could read the code) is replaced by it
+    r4_eval_ok = False
+    sub4 = Run('tmp', run.tier, run.seed, quiet=True)
+    try:
+        search_metachars_eval(sub4, rt)
+        r4_eval_ok = True
+    except AnalysisError as e_:
+        run.note(f'C17.R4 by structure ({e_.reason[:100]})')
+    if r4_eval_ok:
+        run.obligations = [o for o in run.obligations if o['rule'] != 'C17.R4']
+        run.findings = [f for f in run.findings if f['rule'] != 'C17.R4']
+        for o in sub4.obligations:
+            if o['verdict'] == 'holds':
+                run.ok(o['rule'], o['construct'], o['fact'], loc=o['loc'])
+        seen4 = set()
+        for f_ in sub4.findings:
+            if (f_['construct'], f_['sub']) not in seen4:
+                seen4.add((f_['construct'], f_['sub']))
+                run.bad(f_['rule'], f_['construct'], f_['sub'], f_['message'], loc=f_['loc'])
     run.guard('C17.R5', check_plumbing, run, 'C17.R5', src, em, rt, FUNCS)
     run.guard('C17.R6', r6, run, src, g, em)
     run.guard('C17.R7', _evaluated_then_structural, run, 'C17.R7', value_eval, r7, rt)
